@@ -8,6 +8,7 @@ import (
 	"os"
 	"path/filepath"
 	"strings"
+	"sync"
 
 	"verifharness/engine/journal"
 	"verifharness/engine/refcodec"
@@ -188,12 +189,15 @@ func C08(c *runner.Cfg) *report.Result {
 		}
 		res.Observe("golden_entries", len(blobs))
 		types := map[byte]int{}
+		var typesMu sync.Mutex
 		c.Cases("C08/golden", len(blobs), func(idx int, slot *journal.Slot) {
 			l := get(slot)
 			g := blobs[idx]
 			res.Eval(1)
 			res.Count("golden_checked", 1)
+			typesMu.Lock()
 			types[g[len(g)-1]]++
+			typesMu.Unlock()
 			t, sz, err := refcodec.Decode(g)
 			if err != nil || sz != len(g) {
 				res.Violate("c08:golden-reference-decode", fmt.Sprintf("golden #%d: reference decoder size=%d/%d err=%v", idx, sz, len(g), err), hex.EncodeToString(g[:min(len(g), 200)]))
